@@ -9,6 +9,7 @@ let () =
         let toks = List.filter (fun s -> s <> "") (String.split_on_char ' ' line) in
         let r = match toks with
           | [] -> ""
+          | ["HAS"; op] -> if Hashtbl.mem handlers op then "YES" else "NO"
           | op :: _ ->
             (match Hashtbl.find_opt handlers op with
              | None -> "UNSUPPORTED"
